@@ -516,11 +516,18 @@ func main() {
 		// whatever of the block context the EVM exposes must be a function of the chain (C05), also on a
 		// replica that was restarted since the blocks it looks back at
 		"env":     "6025600c60003960256000f3" + "6002430340600055" + "6001430340600155" + "6003430340600255" + "43600355" + "42600455" + "41600555" + "00",
+		// mortal: empty call data -> SELFDESTRUCT(caller); otherwise returns 42
+		//   CALLDATASIZE PUSH1 06 JUMPI CALLER SELFDESTRUCT JUMPDEST PUSH1 2a PUSH1 00 MSTORE PUSH1 20 PUSH1 00 RETURN
+		"mortal": "6011600c60003960116000f3" + "36600657" + "33ff" + "5b" + "602a600052" + "60206000f3",
+		// proxy: CALL(gas, address in call data word 0, no value, no data), then INVALID: a frame that touches the
+		// address and fails - it must leave no trace but the sender's nonce
+		"proxy": "6010600c60003960106000f3" + "600060006000600060006000355af1" + "fe",
 		"revert":  "60006000fd",
 		"invalid": "fe",
 		"empty":   "",
 	}
 	seqs := r.Scale(24, 240)
+	var boundaryHash []byte
 	for s := 0; s < seqs; s++ {
 		history = history[:1]
 		if do("new") != "ok" {
@@ -545,6 +552,20 @@ func main() {
 				{"kv 2"},
 				{"call 0 c0:0", "call 1 c1:0", "call 0 c0:0"},
 				{"call 1 c1:0", "call 0 c0:0"},
+			}
+			blocks = len(script)
+		}
+		// worlds 1 and 2: the same transactions, cut into blocks differently. A contract is destroyed and, later,
+		// a failing frame touches its address - in the same block (world 1) or in the next (world 2). None of the
+		// contracts reads the block context, so the final application hash must be the same (C09: a failed
+		// transaction changes nothing; C05: the state is a function of the transactions).
+		if s == 1 || s == 2 {
+			txs := []string{"create 0 mortal", "create 1 proxy", "calld 0 c0:0 01", "call 0 c0:0", "pcall 1 c1:0 c0:0", "calld 2 c0:0 01", "pcall 1 c1:0 c0:0"}
+			cut := map[int][]int{1: {2, 3, 5, 7}, 2: {2, 3, 4, 5, 6, 7}}[s]
+			prev := 0
+			for _, c := range cut {
+				script = append(script, txs[prev:c])
+				prev = c
 			}
 			blocks = len(script)
 		}
@@ -582,6 +603,12 @@ func main() {
 						created = append(created, fmt.Sprintf("c%d:%d", from, nonce))
 					case "call":
 						op = fmt.Sprintf("tx kind=call from=%d nonce=%d to=%s value=0 gas=100000 price=0 data=", from, nonce, f[2])
+					case "calld":
+						op = fmt.Sprintf("tx kind=call from=%d nonce=%d to=%s value=0 gas=100000 price=0 data=%s", from, nonce, f[2], f[3])
+					case "pcall": // call the proxy with the address of f[3] as call data word 0
+						g := strings.Split(strings.TrimPrefix(f[3], "c"), ":")
+						target := crypto.CreateAddress(w.addrs[int(nodeimpl.Atoi(g[0]))%nKeys], uint64(nodeimpl.Atoi(g[1])))
+						op = fmt.Sprintf("tx kind=call from=%d nonce=%d to=%s value=0 gas=300000 price=0 data=%s%x", from, nonce, f[2], strings.Repeat("00", 12), target.Bytes())
 					default:
 						op = fmt.Sprintf("tx kind=kv from=%d nonce=%d value=0 gas=0 price=0 key=01 val=02 rlpok=1", from, nonce)
 					}
@@ -730,9 +757,18 @@ func main() {
 				}
 			}
 			_ = lastInvalid
-			if R.Chance(35) || (script != nil && b == 1) {
+			if (script == nil && R.Chance(35)) || (s == 0 && b == 1) {
 				do("restart")
 				r.Count("restart")
+			}
+			if (s == 1 || s == 2) && b == blocks-1 {
+				if s == 1 {
+					boundaryHash = append([]byte{}, rb.appHash...)
+				} else if boundaryHash != nil && !bytes.Equal(boundaryHash, rb.appHash) {
+					fail("state-depends-on-where-blocks-are-cut", "the same transactions (a contract destroys itself; later a failing frame touches its address) give another application hash when the two fall into one block than when they fall into consecutive blocks: a failed transaction left a trace / a destroyed contract came back",
+						fmt.Sprintf("%x", rb.appHash), fmt.Sprintf("%x", boundaryHash))
+				}
+				r.Count("boundary-world")
 			}
 		}
 	}
